@@ -1,12 +1,14 @@
 NAME = 'I-maint'
-PROPERTIES = ['C02']
+PROPERTIES = ['C02', 'C15']
 ENGINE = 'verus'
 CLASS = 'U'
 DOC = ('Maintenance of the user-defined (CREATE INDEX) indexes on DML, storage database/indexes/index_maintenance.rs: the per-index step of '
        'add_to_indexes_for_insert, update_indexes_for_update and update_indexes_for_delete (in-memory arm) has EXACTLY this effect on the key -> positions '
        'map: insert appends the position to the list of the row\'s key; update takes the position out of the OLD key\'s list (dropping the key when the list '
        'becomes empty) and appends it to the NEW key\'s list; delete takes it out of the row\'s key; every other key is untouched. Each key component is '
-       'the value of the column NAMED in the index definition, prefix-truncated and normalized (the four key-building closures).')
+       'the value of the column NAMED in the index definition, prefix-truncated and normalized (the four key-building closures). C15: the insert step and '
+       'the update step KEEP THE MIRROR - the map holds under each key exactly the positions of the rows with that key, each once, no empty list - '
+       '(checked compositions of the real steps with the lemmas lemma_uinsert / lemma_uupdate).')
 
 TEMPLATE = r'''
 use vstd::prelude::*;
@@ -103,6 +105,138 @@ pub open spec fn ix_with(m: Ix, k: Key, p: usize) -> Ix {
 //@@ update_step
 //@@ delete_step
 
+/// THE MIRROR for a user-defined index: `keys[j]` is the index key of the row at position j; the map holds, under each key, exactly the
+/// positions of the rows with that key - each once, no key with an empty list (what a rebuild from the rows produces, up to the order in a list)
+pub open spec fn umirror(m: Ix, keys: Seq<Key>) -> bool {
+    &&& forall|k: Key| #![trigger m.dom().contains(k)] m.dom().contains(k) ==> m[k].len() > 0 && m[k].no_duplicates()
+    &&& forall|k: Key, p: usize| #![trigger listed(m, k, p)] listed(m, k, p) <==> ((p as int) < keys.len() && keys[p as int] == k)
+}
+/// position p is in the list of key k
+pub open spec fn listed(m: Ix, k: Key, p: usize) -> bool { m.dom().contains(k) && m[k].contains(p) }
+proof fn lemma_push_contains(l: Seq<usize>, x: usize, q: usize)
+    ensures l.push(x).contains(q) <==> (l.contains(q) || q == x)
+{
+    let l2 = l.push(x);
+    if l.contains(q) { let i = choose|i: int| 0 <= i < l.len() && l[i] == q; assert(l2[i] == q); }
+    if q == x { assert(l2[l.len() as int] == q); }
+    if l2.contains(q) { let i = choose|i: int| 0 <= i < l2.len() && l2[i] == q; if i < l.len() { assert(l[i] == q); } }
+}
+proof fn lemma_push_nodup(l: Seq<usize>, x: usize)
+    requires l.no_duplicates(), !l.contains(x)
+    ensures l.push(x).no_duplicates()
+{
+    let l2 = l.push(x);
+    assert forall|i: int, j: int| 0 <= i < l2.len() && 0 <= j < l2.len() && i != j implies l2[i] != l2[j] by {
+        if i < l.len() && j < l.len() { }
+        else if i < l.len() { assert(l[i] == l2[i]); assert(l.contains(l[i])); }
+        else if j < l.len() { assert(l[j] == l2[j]); assert(l.contains(l[j])); }
+    }
+}
+/// INSERT KEEPS THE MIRROR
+proof fn lemma_uinsert(m: Ix, keys: Seq<Key>, k0: Key)
+    requires umirror(m, keys), keys.len() < usize::MAX
+    ensures umirror(ix_with(m, k0, keys.len() as usize), keys.push(k0))
+{
+    let n = keys.len() as usize; let m2 = ix_with(m, k0, n); let keys2 = keys.push(k0);
+    let l0 = if m.dom().contains(k0) { m[k0] } else { Seq::<usize>::empty() };
+    assert(!l0.contains(n)) by { if m.dom().contains(k0) && m[k0].contains(n) { assert(listed(m, k0, n)); } }
+    assert(l0.no_duplicates());
+    lemma_push_nodup(l0, n);
+    assert forall|k: Key| #![trigger m2.dom().contains(k)] m2.dom().contains(k) implies m2[k].len() > 0 && m2[k].no_duplicates() by {
+        if k != k0 { assert(m.dom().contains(k)); }
+    }
+    assert forall|k: Key, p: usize| #![trigger listed(m2, k, p)] listed(m2, k, p) <==> ((p as int) < keys2.len() && keys2[p as int] == k) by {
+        assert(listed(m, k, p) <==> ((p as int) < keys.len() && keys[p as int] == k));
+        if k == k0 { lemma_push_contains(l0, n, p); }
+    }
+}
+
+proof fn lemma_without(l: Seq<usize>, p: usize)
+    ensures
+        forall|q: usize| #![trigger without_pos(l, p).contains(q)] without_pos(l, p).contains(q) <==> (l.contains(q) && q != p),
+        l.no_duplicates() ==> without_pos(l, p).no_duplicates(),
+    decreases l.len(),
+{
+    reveal(Seq::filter);
+    let f = |x: usize| x != p;
+    if l.len() == 0 {
+        assert(without_pos(l, p) =~= Seq::<usize>::empty());
+    } else {
+        let d = l.drop_last(); let x = l.last();
+        lemma_without(d, p);
+        let sub = without_pos(d, p);
+        assert(l =~= d.push(x));
+        assert(without_pos(l, p) == (if x != p { sub.push(x) } else { sub }));
+        assert forall|q: usize| #![trigger without_pos(l, p).contains(q)] without_pos(l, p).contains(q) <==> (l.contains(q) && q != p) by {
+            lemma_push_contains(d, x, q);
+            lemma_push_contains(sub, x, q);
+            assert(sub.contains(q) <==> (d.contains(q) && q != p));
+        }
+        if l.no_duplicates() {
+            assert(d.no_duplicates()) by { assert forall|i: int, j: int| 0 <= i < d.len() && 0 <= j < d.len() && i != j implies d[i] != d[j] by { assert(l[i] == d[i]); assert(l[j] == d[j]); } }
+            if x != p {
+                assert(!d.contains(x)) by { if d.contains(x) { let i = choose|i: int| 0 <= i < d.len() && d[i] == x; assert(l[i] == x); assert(l[l.len() - 1] == x); } }
+                assert(sub.contains(x) <==> (d.contains(x) && x != p));
+                lemma_push_nodup(sub, x);
+            }
+        }
+    }
+}
+/// UPDATE KEEPS THE MIRROR: the position leaves the old key's list and enters the new key's list
+proof fn lemma_uupdate(m: Ix, keys: Seq<Key>, i: usize, kn: Key)
+    requires umirror(m, keys), (i as int) < keys.len()
+    ensures umirror(ix_with(ix_without(m, keys[i as int], i), kn, i), keys.update(i as int, kn))
+{
+    let ko = keys[i as int]; let m1 = ix_without(m, ko, i); let m2 = ix_with(m1, kn, i); let keys2 = keys.update(i as int, kn);
+    assert(listed(m, ko, i));
+    lemma_without(m[ko], i);
+    // m1: position i is listed nowhere, everything else as before
+    assert forall|k: Key, p: usize| #![trigger listed(m1, k, p)] listed(m1, k, p) <==> (listed(m, k, p) && !(k == ko && p == i)) by {
+        assert(listed(m, k, p) <==> ((p as int) < keys.len() && keys[p as int] == k));
+        if k == ko {
+            let l = without_pos(m[ko], i);
+            assert(l.contains(p) <==> (m[ko].contains(p) && p != i));
+            if l.len() == 0 { if l.contains(p) { let j = choose|j: int| 0 <= j < l.len() && l[j] == p; } }
+        }
+    }
+    assert forall|k: Key| #![trigger m1.dom().contains(k)] m1.dom().contains(k) implies m1[k].len() > 0 && m1[k].no_duplicates() by {
+        if k != ko { assert(m.dom().contains(k)); } else { assert(m.dom().contains(ko)); }
+    }
+    let l0 = if m1.dom().contains(kn) { m1[kn] } else { Seq::<usize>::empty() };
+    assert(!l0.contains(i)) by { if m1.dom().contains(kn) && m1[kn].contains(i) { assert(listed(m1, kn, i)); assert(listed(m, kn, i)); } }
+    lemma_push_nodup(l0, i);
+    assert forall|k: Key| #![trigger m2.dom().contains(k)] m2.dom().contains(k) implies m2[k].len() > 0 && m2[k].no_duplicates() by {
+        if k != kn { assert(m1.dom().contains(k)); }
+    }
+    assert forall|k: Key, p: usize| #![trigger listed(m2, k, p)] listed(m2, k, p) <==> ((p as int) < keys2.len() && keys2[p as int] == k) by {
+        assert(listed(m1, k, p) <==> (listed(m, k, p) && !(k == ko && p == i)));
+        assert(listed(m, k, p) <==> ((p as int) < keys.len() && keys[p as int] == k));
+        if k == kn { lemma_push_contains(l0, i, p); }
+    }
+}
+
+// ---------------- C15: the steps KEEP THE MIRROR (checked compositions: the real steps through their contracts + the lemmas above) -------------
+fn insert_step_keeps_mirror(index_data: &mut IndexData, metadata: &IndexMetadata, key_values: Vec<SqlValue>, row_index: usize, Ghost(keys): Ghost<Seq<Key>>)
+    requires (*old(index_data)) is InMemory, umirror((*old(index_data))->InMemory_data.view(), keys), row_index == keys.len(), keys.len() < usize::MAX,
+    ensures (*final(index_data)) is InMemory, umirror((*final(index_data))->InMemory_data.view(), keys.push(key_values@)),
+{
+    proof { lemma_uinsert((*index_data)->InMemory_data.view(), keys, key_values@); }
+    insert_step(index_data, metadata, key_values, row_index);
+}
+fn update_step_keeps_mirror(index_data: &mut IndexData, metadata: &IndexMetadata, old_key_values: Vec<SqlValue>, new_key_values: Vec<SqlValue>, row_index: usize, Ghost(keys): Ghost<Seq<Key>>)
+    requires (*old(index_data)) is InMemory, umirror((*old(index_data))->InMemory_data.view(), keys), (row_index as int) < keys.len(), keys[row_index as int] == old_key_values@,
+    ensures (*final(index_data)) is InMemory, umirror((*final(index_data))->InMemory_data.view(), keys.update(row_index as int, new_key_values@)),
+{
+    proof { lemma_uupdate((*index_data)->InMemory_data.view(), keys, row_index, new_key_values@); }
+    update_step(index_data, metadata, old_key_values, new_key_values, row_index);
+}
+fn canary_keeps(index_data: &mut IndexData, metadata: &IndexMetadata, key_values: Vec<SqlValue>, row_index: usize, Ghost(keys): Ghost<Seq<Key>>)
+    requires (*old(index_data)) is InMemory, umirror((*old(index_data))->InMemory_data.view(), keys), row_index == keys.len(), keys.len() < usize::MAX,
+{
+    insert_step_keeps_mirror(index_data, metadata, key_values, row_index, Ghost(keys));
+    assert(false); // CANARY
+}
+
 fn canary_update(index_data: &mut IndexData, metadata: &IndexMetadata, old_key_values: Vec<SqlValue>, new_key_values: Vec<SqlValue>, row_index: usize)
 {
     update_step(index_data, metadata, old_key_values, new_key_values, row_index);
@@ -185,12 +319,17 @@ OBLIGATIONS = {
     'insert_step': ['post:position_appended_to_the_rows_key_nothing_else_changes'],
     'update_step': ['post:position_leaves_the_old_key_and_enters_the_new_key_nothing_else_changes'],
     'delete_step': ['post:position_leaves_the_rows_key_nothing_else_changes'],
+    'lemma_push_contains': ['post:membership_after_push'], 'lemma_push_nodup': ['post:no_duplicates_after_push_of_a_new_element'],
+    'lemma_without': ['post:filter_removes_exactly_the_position_and_keeps_no_duplicates'],
+    'lemma_uinsert': ['post:append_keeps_the_mirror'], 'lemma_uupdate': ['post:position_moves_from_the_old_key_to_the_new_key_keeps_the_mirror'],
+    'insert_step_keeps_mirror': ['post:the_real_insert_step_keeps_the_mirror'], 'update_step_keeps_mirror': ['post:the_real_update_step_keeps_the_mirror'],
 }
-CANARIES = ['canary_update', 'canary_key']
+CANARIES = ['canary_update', 'canary_key', 'canary_keeps']
 TRUSTED = [
     'R6: the per-index step (the `match index_data { .. }` expression, with its free variables index_data, metadata, the key vectors and row_index as parameters) and the key-building closures (`|col| { .. }`) are lifted out of the three maintenance functions; what surrounds them is NOT under contract: the loop over the registry (`for (index_name, metadata) in &self.indexes`, the table-name filter, `self.index_data.get_mut(index_name)`), `.iter().map(closure).collect()` over metadata.columns (assumed: one component per index column, in definition order), and the `old_key_values != new_key_values` guard of the update step',
     'external_body KeyMap: BTreeMap<Vec<SqlValue>, Vec<usize>> through push_at (entry().or_insert_with(Vec::new).push()), contains_key / retain_ne / is_empty_at (the list returned by get_mut: retain(|&idx| idx != p), is_empty()), remove - R11 rewrite of the get_mut block',
     'SqlValue, Str, Opq, TableSchema opaque (TableSchema::get_column_index: uninterpreted function col_index of the name); norm / trunc = normalize_for_comparison / apply_prefix_truncation uninterpreted (external_body stubs); Option::expect rewritten to expect_col, which REQUIRES Some (a missing index column would panic: precondition col_ok, established by CREATE INDEX validation); Row / IndexColumn reduced to the fields read',
     'the disk-backed arm (SharedTree, TreeGuard, acquire_btree_lock) is opaque and NOT under contract; observed there: update calls BTreeIndex::delete(old_key), which is handed no row position',
+    'C15 mirror (umirror) is over the key SEQUENCE keys[j] = index key of the row at position j; the order of positions inside one key list is not part of it (a rebuild lists them ascending; DML appends); insert_step_keeps_mirror / update_step_keeps_mirror are verified wrapper functions written here (not repository code) that call the extracted steps through their contracts',
     'that positions stay valid after a DELETE (they shift) is not maintained by delete_step but by the rebuild that follows (units I-resolve, K-undo)',
 ]
